@@ -951,7 +951,10 @@ qb_ipcs_connection_stats_get_2(qb_ipcs_connection_t *c,
 
 	memcpy(stats, &c->stats, sizeof(struct qb_ipcs_connection_stats_2));
 
-	if (c->service->funcs.q_len_get) {
+	if (c->service->funcs.q_len_get &&
+	    (c->state == QB_IPCS_CONNECTION_ACTIVE ||
+	     c->state == QB_IPCS_CONNECTION_ESTABLISHED)) {
+		/* (a disconnected connection's channels are already closed) */
 		stats->event_q_length = c->service->funcs.q_len_get(&c->event);
 	} else {
 		stats->event_q_length = 0;
